@@ -34,10 +34,37 @@ pub fn any_key() -> Jwk {
 
 /// JSON object of an abstract header (None when the header is absent)
 pub fn header_json(h: &Value) -> Option<Value> {
+  header_json_with(h, "none")
+}
+
+/// `shared`: a registered parameter put into this header as well (the row puts it into both)
+pub fn header_json_with(h: &Value, shared: &str) -> Option<Value> {
   if !b(&h["present"]) {
     return None;
   }
   let mut o = serde_json::Map::new();
+  match shared {
+    "none" => {}
+    "nonce" => {
+      o.insert("nonce".into(), json!("nonce-1"));
+    }
+    "url" => {
+      o.insert("url".into(), json!("https://example.com/acme/new-order"));
+    }
+    "typ" => {
+      o.insert("typ".into(), json!("JWT"));
+    }
+    "cty" => {
+      o.insert("cty".into(), json!("text/plain"));
+    }
+    "x5t#S256" => {
+      o.insert("x5t#S256".into(), json!("dGh1bWJwcmludA"));
+    }
+    "jku" => {
+      o.insert("jku".into(), json!("https://example.com/jwks.json"));
+    }
+    o2 => tool_error(&format!("bad shared name {o2}")),
+  }
   if b(&h["alg"]) {
     o.insert("alg".into(), json!("EdDSA"));
   }
@@ -100,8 +127,9 @@ fn run_row(case: &Value) -> Result<Vec<(String, bool, bool)>, String> {
   let accept = b(&out["accept"]);
   let verify_ok = b(&out["verify"]);
   let eff_b64 = b(&out["b64"]);
-  let pj = header_json(&row["p"]);
-  let uj = header_json(&row["u"]);
+  let shared = row.get("shared").and_then(|v| v.as_str()).unwrap_or("none");
+  let pj = header_json_with(&row["p"], shared);
+  let uj = header_json_with(&row["u"], shared);
   let mut obs: Vec<(String, bool, bool)> = Vec::new();
   let sig = [1u8; 64];
 
